@@ -822,7 +822,7 @@ pub fn gen_cfg(prop: &str, seed: u64) -> RunCfg {
                                     ops.push(Op::OpenWrite { p: P::new(&t), append: g.rng.pct(40), slot: 2 + g.rng.below(2) as u8 })
                                 }
                             }
-                            3 | 4 => ops.push(Op::HRead(g.rng.below(2) as u8, *g.rng.pick(&[0usize, 1, 2, 7, 8192, READ_TO_END]))),
+                            3 | 4 => ops.push(Op::HRead(g.rng.below(2) as u8, *g.rng.pick(&[0usize, 1, 2, 7, 8192, READ_TO_END, READ_EXACT, READ_EXACT + 1, READ_EXACT + 3]))),
                             5 | 6 => {
                                 let w = *g.rng.pick(&[Whence::Start, Whence::Current, Whence::End]);
                                 let off = *g.rng.pick(&[0, 1, -1, len, -len, len + 1, -len - 1, i64::MIN, i64::MAX, i64::MIN + 1, -1 - len, 1i64 << 62]);
@@ -1114,7 +1114,7 @@ pub fn handle_script(g: &mut Gen, spec: &Spec) -> Vec<Op> {
             ops.push(Op::OpenRead(P::new(&p), 1));
             for _ in 0..g.rng.range(2, 10) {
                 if g.rng.pct(55) {
-                    ops.push(Op::HRead(1, *g.rng.pick(&[0usize, 1, 1, 2, 3, 7, 64, 4096, 8192, 70_000, READ_TO_END])));
+                    ops.push(Op::HRead(1, *g.rng.pick(&[0usize, 1, 1, 2, 3, 7, 64, 4096, 8192, 70_000, READ_TO_END, READ_EXACT, READ_EXACT, READ_EXACT + 1, READ_EXACT + 2, READ_EXACT + 9000])));
                 } else {
                     let w = *g.rng.pick(&[Whence::Start, Whence::Current, Whence::End]);
                     let mut off = offsets(g, flen);
@@ -1251,7 +1251,7 @@ pub fn reader_block(g: &mut Gen, m: &Model, slot: u8) -> Vec<Op> {
     let mut ops = vec![Op::OpenRead(P::new(&t), slot)];
     for _ in 0..g.rng.range(1, 6) {
         if g.rng.pct(50) {
-            let n = *g.rng.pick(&[0usize, 1, 2, 3, 7, 64, 8192, READ_TO_END]);
+            let n = *g.rng.pick(&[0usize, 1, 2, 3, 7, 64, 8192, READ_TO_END, READ_EXACT, READ_EXACT + 2]);
             ops.push(Op::HRead(slot, n));
         } else {
             let off = *g.rng.pick(&[0, 1, -1, len, len + 1, len - 1, -len, -len - 1, 3, 100_000]);
@@ -1510,6 +1510,18 @@ pub fn gen_any(prop: &str, seed: u64) -> Value {
                     cfg.extra.insert("hostile_paths".into(), "1".into());
                 }
             }
+            // executor modes that leave every expected outcome unchanged: handle reads and writes
+            // through the vectored calls; path values handed out by listings and walks kept and used
+            // as receivers of later calls instead of freshly joined ones
+            {
+                let mut r = Rng::new(crate::rng::mix(seed, 0x10571e));
+                if r.pct(20) {
+                    cfg.extra.insert("io_style".into(), "1".into());
+                }
+                if r.pct(25) {
+                    cfg.extra.insert("keep_paths".into(), "1".into());
+                }
+            }
             // restart: in a quarter of the runs on stacks with adapters, the adapters are
             // constructed anew over the same layers once or twice (only durable state survives)
             if matches!(prop, "C01" | "C03" | "C04" | "C05" | "C08" | "C09" | "C10" | "C12" | "C15") && (cfg.specs[0].has_ovl() || matches!(cfg.specs[0], Spec::Alt { .. })) {
@@ -1577,11 +1589,17 @@ pub fn run_any(prop: &str, cfg: &Value, trace: bool) -> RunOut {
 fn run_any_inner(prop: &str, cfg: &Value, trace: bool) -> RunOut {
     match engine_of(prop) {
         "seq" => match serde_json::from_value::<RunCfg>(cfg.clone()) {
-            Ok(c) => run_cfg(&c, trace),
+            Ok(c) => {
+                crate::ops::set_run_modes(&c.extra);
+                run_cfg(&c, trace)
+            }
             Err(e) => RunOut { harness_error: Some(format!("bad cfg: {}", e)), ..Default::default() },
         },
         "conc" => match serde_json::from_value::<crate::conc::ConcCfg>(cfg.clone()) {
-            Ok(c) => crate::conc::run_conc(&c, trace),
+            Ok(c) => {
+                crate::ops::set_run_modes(&Default::default());
+                crate::conc::run_conc(&c, trace)
+            }
             Err(e) => RunOut { harness_error: Some(format!("bad cfg: {}", e)), ..Default::default() },
         },
         e => RunOut { harness_error: Some(format!("engine {} not built yet", e)), ..Default::default() },
